@@ -122,6 +122,33 @@ def automaton_of_state(term_text):
     return "sub" if ".subdfas.lookup(" in term_text else ("outer" if "param#2(dfa)" in term_text or "(dfa)" in term_text else "?")
 
 
+def sites_through_helpers(repo, fn, envs):
+    """(site, at(hole expr) -> (expr, env)) for the format sites of fn and, once per call, for those of the printing helpers of
+    its module that fn calls: a helper's hole that is one of its parameters stands for the argument of that call."""
+    for s in TM.fmt_sites(fn, envs):
+        yield s, (lambda e, s=s: (e, envs.get(id(e)) or s.env)), f"{fn.file}:{s.node['l']}"
+    for h in repo.fns_in(fn.module):
+        if h is fn or not any(True for _ in TM.fmt_sites(h)):
+            continue
+        henvs = A.collect_envs(h)
+        for c in P.find_calls(fn.body, names={h.name}):
+            if len(c["args"]) != len(h.params):
+                continue
+
+            def at(e, s=None, c=c, henvs=henvs):
+                x = e
+                while x is not None and x["k"] in ("Ref", "Paren") or (x is not None and x["k"] == "Unary" and x.get("op") == "*"):
+                    x = x["expr"]
+                env = henvs.get(id(e)) or (s.env if s is not None else None)
+                p = A.resolve(x, env) if x is not None else ("none",)
+                if p[0] == "param" and isinstance(p[1], int) and p[1] < len(c["args"]):
+                    return c["args"][p[1]], envs.get(id(c))
+                return e, env
+
+            for s in TM.fmt_sites(h, henvs):
+                yield s, (lambda e, s=s, at=at: at(e, s)), f"{fn.file}:{c['l']}"
+
+
 def nodeid_rule(repo, res, ty, rule="NODEID"):
     fn = repo.fn("dfa::do_to_dot")
     if fn is None:
@@ -132,7 +159,7 @@ def nodeid_rule(repo, res, ty, rule="NODEID"):
     prefix_param = [p["name"] for p in fn.params if "str" in (p.get("ty") or "")]
     n = 0
     seq = {}
-    for s in TM.fmt_sites(fn, envs):
+    for s, at, where in sites_through_helpers(repo, fn, envs):
         if s.macro not in ("write", "writeln"):
             continue
         pcs = s.pieces
@@ -141,22 +168,24 @@ def nodeid_rule(repo, res, ty, rule="NODEID"):
             if p[0] == "hole" and i + 1 < len(pcs) and pcs[i + 1][0] == "hole" and i > 0 and pcs[i - 1][0] == "lit" and re.search(r'(^|[\s>])_$|label="$', pcs[i - 1][1]):
                 ph = [h for h in s.holes if h[0] == i][0]
                 sh = [h for h in s.holes if h[0] == i + 1][0]
-                penv = envs.get(id(ph[2])) or s.env
-                senv = envs.get(id(sh[2])) or s.env
+                pe, penv = at(ph[2])
+                se, senv = at(sh[2])
+                ph = (ph[0], ph[1], pe)
+                sh = (sh[0], sh[1], se)
                 pt = A.show(A.resolve(ph[2], penv))
                 st = A.show(A.resolve(sh[2], senv))
                 t = ty.of(sh[2], senv)
                 what = RE.hole_text(repo, fn, sh[2])
                 seq[what] = seq.get(what, 0) + 1
                 key = f"{rule}:{fn.qname}:{what}#{seq[what]}"
-                loc = f"{fn.file}:{s.node['l']}"
+                loc = where
                 n += 1
                 once = t.startswith("Off<") and not t.startswith("Off<Off<")
                 res.check(once, rule, key + ":base", f"node id state `{what}` : {t}" + (" (array base added once)" if once else ": the state must carry `+ array_start` exactly once, or the dump numbers states differently from the emitted script"), loc)
                 p_auto = "outer" if re.fullmatch(r"param#\d+\((\w+)\)", pt) and re.fullmatch(r"param#\d+\((\w+)\)", pt).group(1) in prefix_param else ("sub" if pt.startswith("format!(") else "?")
                 s_auto = automaton_of_state(st)
                 res.check(p_auto == s_auto and p_auto != "?", rule, key + ":scope", f"prefix {pt[:40]} names the {p_auto} automaton, state {st[:70]} belongs to the {s_auto} automaton" + ("" if p_auto == s_auto else ": the node id mixes two automata (an edge would point at a node of the wrong cluster)"), loc)
-    res.floor(rule, n, 12)
+    res.floor(rule, n, 6)
 
 
 def cluster_rule(repo, res, ty, rule="CLUSTERID"):
@@ -284,7 +313,7 @@ def label_rule(repo, res, rule="LABEL"):
     if fn is not None:
         envs = A.collect_envs(fn)
         n_nodes = 0
-        for s in TM.fmt_sites(fn, envs):
+        for s, _at, _where in sites_through_helpers(repo, fn, envs):  # a helper's line counts once per call
             if s.macro in ("write", "writeln") and "[label=" in s.template and "->" not in s.template and "subword" not in s.template:
                 n_nodes += 1
         res.check(n_nodes >= 3, rule, f"{rule}:dfa::do_to_dot:node-lines", f"{n_nodes} node-line templates (start state, ordinary states, accepting states)", fn.loc())
